@@ -15,14 +15,19 @@ Ids(s)   == [nil |-> FALSE, r |-> 0, ids |-> s]
 TFields == [s |-> A("string", FALSE), n |-> A("int", TRUE), b |-> A("bytes", FALSE), q |-> A("bytes", TRUE),
             o |-> R(TRUE, "tt"), m |-> R(FALSE, "tt")]
 
+\* types with no relationship / no attribute at all (their other map is empty)
+TAttrsOnly == [s |-> A("string", FALSE)]
+TRelsOnly  == [m |-> R(FALSE, "tt")]
 NoDef == A("", FALSE)
 Op(o, h, impl, f, v, id, def, unt) ==
     [op |-> o, h |-> h, impl |-> impl, tname |-> "rt", fields |-> IF o = "New" THEN TFields ELSE <<>>,
      f |-> f, v |-> v, id |-> id, def |-> def, untyped |-> unt]
+NewOf(impl, tn, flds) == [Op("New", 0, impl, "", V(0), "", NoDef, FALSE) EXCEPT !.tname = tn, !.fields = flds]
 
 H == 1..MaxObjs
 Alphabet ==
        { Op("New", 0, i, "", V(0), "", NoDef, FALSE) : i \in {"soft", "wrap"} }
+  \cup { NewOf(i, "rta", TAttrsOnly) : i \in {"soft", "wrap"} } \cup { NewOf(i, "rtr", TRelsOnly) : i \in {"soft", "wrap"} }
   \cup { Op("Set", h, "", p[1], p[2], "", NoDef, FALSE) : h \in H,
             p \in { <<"s", V(1)>>, <<"s", V(2)>>, <<"n", V(1)>>, <<"n", NilV>>, <<"b", V(1)>>, <<"b", V(2)>>,
                     <<"q", V(1)>>, <<"q", NilV>>, <<"o", Ids(<<"a">>)>>, <<"o", Ids(<<>>)>>,
